@@ -2103,6 +2103,11 @@ IW_EXPORT iwrc jbn_copy_paths(
 
 IW_INLINE void _jbn_remove_item(struct jbl_node *parent, struct jbl_node *child) {
   assert(parent->child);
+  if (parent->type == JBV_ARRAY) { // cached indices of the following siblings stay equal to their positions
+    for (struct jbl_node *n = child->next; n; n = n->next) {
+      n->klidx--;
+    }
+  }
   if (parent->child == child) {                 // First element
     if (child->next) {
       parent->child = child->next;
